@@ -259,6 +259,7 @@ struct RwOpts {
   bool insert_unknown = true;        // only into maps flagged by `is_cdns_map`
   bool chunk_text_at_utf8 = true;
   unsigned unknown_depth = 3;
+  bool big_unknown = false;          // unknown values may be byte/text strings of 66 000 .. 140 000 bytes (chunked or not)
 };
 
 inline size_t utf8_boundary_before(const std::string& s, size_t i) {
@@ -339,6 +340,12 @@ inline void encode_rw(const Node& n, std::string& o, vf::Chooser& c, const RwOpt
           else put_head_min(e, NINT, 63 + c.range(0, 1000) + (uint64_t)i * 2000);
           GenOpts go; go.max_depth = ro.unknown_depth < 3 ? ro.unknown_depth : 3;
           Node v = gen_item(c, go);
+          if (ro.big_unknown && c.coin()) {
+            size_t len = (size_t)c.pick<int>({66000, 70000, 131070, 140000});
+            std::string big(len, 'u');
+            for (size_t bi = 0; bi < len; bi += 97) big[bi] = (char)('A' + (bi / 97) % 26);
+            v = c.coin() ? mk_bstr(big) : mk_tstr(big);
+          }
           // deep nesting is produced as a linear chain (a bushy tree of that depth would be exponential)
           for (unsigned dpt = 3; dpt < ro.unknown_depth; dpt++) {
             uint64_t w = c.range(0, 2);
